@@ -133,7 +133,14 @@ pub fn step(db: &mut SparqlDatabase, other: &mut SparqlDatabase, m: &mut Store, 
             let iso = qm::iso_modulo_fresh_bnodes(&m.quads, &real.quads, &|s| s.starts_with("_:B"), &|s| s.starts_with(REAL_FRESH));
             match iso {
                 Some(true) => {}
-                None => ctx.hit("probe.blank_node_isomorphism_budget_exhausted"),
+                None => {
+                    // search budget exhausted (many interchangeable fresh nodes linked to each other): fall back to the comparison with
+                    // all fresh labels collapsed, which can only miss a wrong blank-node structure, never alarm wrongly
+                    ctx.hit("probe.blank_node_isomorphism_budget_exhausted");
+                    let strip = |s: &BTreeSet<Q>, pre: &str| -> BTreeSet<Q> { s.iter().map(|q| (if q.0.starts_with(pre) { "_:*".into() } else { q.0.clone() }, q.1.clone(), if q.2.starts_with(pre) { "_:*".into() } else { q.2.clone() }, q.3.clone())).collect() };
+                    let (a, b) = (strip(&m.quads, "_:B"), strip(&real.quads, REAL_FRESH));
+                    if a != b { return Err(Violation::new("dataset-differs", format!("step {}: after {:?} the dataset differs from the standard effect even with all fresh blank nodes identified; expected-but-missing {:?}; present-but-unexpected {:?}", i, text, a.difference(&b).take(3).collect::<Vec<_>>(), b.difference(&a).take(3).collect::<Vec<_>>()))); }
+                }
                 Some(false) => {
                     let strip = |s: &BTreeSet<Q>, pre: &str| -> BTreeSet<Q> { s.iter().map(|q| (if q.0.starts_with(pre) { "_:*".into() } else { q.0.clone() }, q.1.clone(), if q.2.starts_with(pre) { "_:*".into() } else { q.2.clone() }, q.3.clone())).collect() };
                     let (a, b) = (strip(&m.quads, "_:B"), strip(&real.quads, REAL_FRESH));
